@@ -85,19 +85,28 @@ pub fn run(input: &Value) -> Case {
     let mut any_alpha = false;
     for (w, h, data) in &parents {
         let mut rows = vec![];
+        let rle = w * h > 4000; // large parents are written run-length encoded (Corr/C12Corr.unrle)
         for r in 0..*h {
-            let mut row = vec![];
+            let mut row: Vec<(usize, String)> = vec![];
             for c in 0..*w {
                 let p = data[r * w + c];
-                if p[3] == 255 {
-                    row.push(format!("Opaque {}", crgb(&[p[0], p[1], p[2]])));
+                let term = if p[3] == 255 {
+                    format!("Opaque {}", crgb(&[p[0], p[1], p[2]]))
                 } else {
                     any_alpha = true;
                     let raw = bg_eff.blend_over(RGBA::new(p[0], p[1], p[2], p[3])).to_rgb();
-                    row.push(format!("Transp {} {} {}", crgb(&[p[0], p[1], p[2]]), p[3], crgb(&raw)));
+                    format!("Transp {} {} {}", crgb(&[p[0], p[1], p[2]]), p[3], crgb(&raw))
+                };
+                match row.last_mut() {
+                    Some((n, t)) if rle && *t == term => *n += 1,
+                    _ => row.push((1, term)),
                 }
             }
-            rows.push(clist(row));
+            if rle {
+                rows.push(format!("unrle {}", clist(row.into_iter().map(|(n, t)| format!("({}%nat, {})", n, t)))));
+            } else {
+                rows.push(clist(row.into_iter().map(|(_, t)| t)));
+            }
         }
         coq_parents.push(clist(rows));
     }
@@ -438,7 +447,9 @@ fn gen_crop_siblings(rng: &mut Rng, thorough: bool) -> Value {
 /// an image large enough (>= 51200 pixels) for ColorPalette::from_image to sub-sample it inside draw;
 /// few colours in long horizontal runs (repeats in the hundreds), some single pixels
 fn gen_big(rng: &mut Rng) -> Value {
-    let w = 256 + rng.below(70) as usize;
+    // narrow and tall: the model's error rows are lists of length w + 2 (runs of hundreds of columns are
+    // the business of gen_wide)
+    let w = 64 + rng.below(40) as usize;
     let h = (51200 + w - 1) / w + 6 + rng.below(6) as usize; // (h / 6) * 6 * w >= 51200
     let ncol = 3 + rng.below(4) as usize;
     let pal = palette(rng, ncol);
@@ -448,7 +459,7 @@ fn gen_big(rng: &mut Rng) -> Value {
         while c < w {
             let run = match rng.below(4) {
                 0 => 1 + rng.below(4) as usize,
-                1 => 90 + rng.below(60) as usize,
+                1 => 30 + rng.below(60) as usize,
                 2 => w,
                 _ => 5 + rng.below(40) as usize,
             };
